@@ -161,7 +161,7 @@ REGISTRY["C05"] = {
 REGISTRY["C09"] = {
     "engine": "engine_cache",
     "theorems": [(A + "Cache", "Api.Cache.C09"), (A + "Cache", "Api.Cache.C09_history"), (A + "Cache", "Api.Cache.C09_stale_without_reset"),
-                 (A + "Cache", "Api.Cache.C09_stale_key_clash"), (A + "WiringThm", "Api.Wiring.unreset_are_known"), (A + "WiringThm", "Api.Wiring.wired")],
+                 (A + "Cache", "Api.Cache.C09_stale_key_clash"), (A + "WiringThm", "Api.Wiring.no_unreset_path"), (A + "WiringThm", "Api.Wiring.unreset_are_known"), (A + "WiringThm", "Api.Wiring.wired")],
     "model_is_spec": True,
     "partial": "the abstract machine theorem needs every mutation of a history to go through a resetting path, locality of reads and faithful cache keys; "
                "the first is discharged by `decide` on the table regenerated from the source (listed exceptions = known findings), the other two are "
